@@ -28,7 +28,7 @@ func checkC10(r *Run) {
 		recv := g.Decl.Recv.List[0].Names[0].Name
 		okLock := true
 		n := 0
-		for _, fa := range db.Fields {
+		for _, fa := range m.fields() {
 			if fa.Root.Key != "p9.pool.Get" && fa.Root.Key != "p9.pool.Put" {
 				continue
 			}
@@ -51,24 +51,33 @@ func checkC10(r *Run) {
 			}
 			return true
 		})
-		// fact at the exit returning (v, true) with v := p.start
-		okFact := false
-		for _, ex := range db.Exits[g] {
-			if ex.Ret == nil || len(ex.Ret.Results) != 2 || norm(ex.Ret.Results[1]) != "true" || ex.St.Dead {
+		// every path that hands out the counter (result 0 is p.start, result 1 true) has refused
+		// start == limit; the results are read per path, whether they are returned early or
+		// assigned to named results
+		gres := m.resolver(g)
+		okFact, nStart, okEx := true, 0, false
+		limFact := recv + ".start == " + recv + ".limit"
+		for _, xp := range exitPaths(r.L, db, g, gres) {
+			if len(xp.Vals) != 2 {
 				continue
 			}
-			if ex.St.holds(recv+".start == "+recv+".limit", false) {
-				okFact = true
+			switch nospace(xp.Vals[1].s) {
+			case "true":
+				if nospace(xp.Vals[0].s) == recv+".start" {
+					nStart++
+					if !xp.holds(limFact, false) {
+						okFact = false
+					}
+				}
+			case "false":
+				if xp.holds(limFact, true) && nospace(xp.Vals[0].s) == "0" {
+					okEx = true
+				}
 			}
 		}
+		okFact = okFact && nStart > 0
 		r.check(okLim && okFact, "r1", "pool.Get never produces a value ≥ limit", g.Decl.Pos(), "start is handed out and incremented only after start == limit → false", "pool.Get can hand out start without having refused start == limit: NOTAG / NOFID (or a wrapped-around 0) could be allocated")
 		// exhausted → (0,false)
-		okEx := false
-		for _, ex := range db.Exits[g] {
-			if ex.Ret != nil && len(ex.Ret.Results) == 2 && norm(ex.Ret.Results[1]) == "false" && ex.St.holds(recv+".start == "+recv+".limit", true) {
-				okEx = true
-			}
-		}
 		r.check(okEx, "r1", "pool.Get reports exhaustion", g.Decl.Pos(), "start == limit → (0, false)", "exhaustion is not reported")
 	}
 	if nc := r.mustFunc("r1", "p9", "NewClient"); nc != nil {
@@ -103,13 +112,14 @@ func checkC10(r *Run) {
 
 	// ---- r2: fid release discipline ----
 	nPut := 0
-	for _, s := range db.Calls["p9.pool.Put"] {
-		if !strings.HasSuffix(recvStr(m.resolver(s.Root), s.Call), ".fidPool") || s.St.Dead {
+	// (sites in private helpers are judged inside the methods that call the helper)
+	for _, s := range m.contextSites("p9.pool.Put") {
+		if !strings.HasSuffix(s.recvStr(), ".fidPool") || s.St.Dead {
 			continue
 		}
 		nPut++
 		root := s.Root
-		key := fmt.Sprintf("%s: fidPool.Put(%s)", root.Key, norm(s.Call.Args[0]))
+		key := fmt.Sprintf("%s: fidPool.Put(%s)", root.Key, nospace(s.arg(0)))
 		res := m.resolver(root)
 		arg := unparen(s.Call.Args[0])
 		// strip conversion
@@ -143,8 +153,26 @@ func checkC10(r *Run) {
 			r.check(okS && okReq && okCAS && okArg, "r2", key, s.Call.Pos(), "after the server confirmed Tclunk/Tremove, behind the closed CAS",
 				fmt.Sprintf("fid returned to the pool without a confirmed unbind (after successful sendRecv=%v, request is Tclunk/Tremove of this fid=%v, behind closed CAS=%v): the number could be given to a new File while the server still has it bound", okS, okReq, okCAS))
 		default:
-			// error side of the binding sendRecv; id from fidPool.Get here
-			idObj := objOf(info, arg)
+			// error side of the binding sendRecv; id from fidPool.Get here.  The argument is
+			// rendered in root's frame (a helper's parameter stands for what it was called with)
+			// and stripped of conversions: it must name the variable that received Get's result.
+			argName := stripConvText(s.arg(0))
+			for { // conversions to named types too: uint64(fid(id))
+				i := strings.Index(argName, "(")
+				if i <= 0 || !isPlainIdent(argName[:i]) || matchingParen(argName, i) != len(argName)-1 || strings.Contains(argName[i:], ",") {
+					break
+				}
+				argName = stripConvText(argName[i+1 : len(argName)-1])
+			}
+			var idObj types.Object
+			for _, g := range m.callsIn(root, "p9.pool.Get") {
+				if as, ok := r.L.parent(g.Call).(*ast.AssignStmt); ok && len(as.Lhs) == 2 && len(g.Inl) == 0 {
+					if o := objOf(info, as.Lhs[0]); o != nil && res.nameOf(o) == argName {
+						idObj = o
+					}
+				}
+			}
+			_ = arg
 			fromGet := false
 			if idObj != nil {
 				if def, ok := s.St.Defs[idObj].(*ast.CallExpr); ok && calleeKey(info, def) == "p9.pool.Get" && strings.HasSuffix(recvStr(res, def), ".fidPool") {
@@ -154,27 +182,35 @@ func checkC10(r *Run) {
 			// the request that binds the fid: a request literal (written in place or held in a
 			// local) one of whose fields is fid(id), possibly through a local alias
 			var binding *ast.CallExpr
+			bindingStr, bindingErr := "", ""
 			for _, cs := range m.callsIn(root, "p9.Client.sendRecv") {
 				if idObj == nil {
 					continue
 				}
 				want := "fid(" + res.nameOf(idObj) + ")"
-				if lit := requestLiteral(info, res, cs.Call.Args[0]); lit != nil {
+				if lit := requestLiteral(info, cs.Res, cs.Call.Args[0]); lit != nil {
 					for _, el := range lit.Elts {
 						v := el
 						if kv, isKV := el.(*ast.KeyValueExpr); isKV {
 							v = kv.Value
 						}
-						if nospace(res.str(v)) == want {
+						if nospace(cs.Res.str(v)) == want {
 							binding = cs.Call
+							bindingStr = cs.Res.str(cs.Call)
+							// the variable that receives its error, as rendered at that site
+							if as, isAs := r.L.parent(cs.Call).(*ast.AssignStmt); isAs && len(as.Lhs) == 1 {
+								if eo := objOf(info, as.Lhs[0]); eo != nil {
+									bindingErr = cs.Res.nameOf(eo)
+								}
+							}
 						}
 					}
 				}
 			}
 			failed := false
 			if binding != nil {
-				cstr := res.str(binding) + " == nil"
-				failed = s.St.holds(cstr, false)
+				cstr := bindingStr + " == nil"
+				failed = s.St.holds(cstr, false) || bindingErr != "" && s.St.holds(bindingErr+" == nil", false)
 				if !failed {
 					if v, ok := m.errVarOf(s.St, root, binding); ok {
 						failed = s.St.holds(v+" == nil", false)
@@ -198,7 +234,7 @@ func checkC10(r *Run) {
 		id := norm(as.Lhs[0])
 		okNew := false
 		for _, nf := range m.callsIn(s.Root, "p9.Client.newFile") {
-			if nospace(m.resolver(s.Root).str(nf.Call.Args[0])) == "fid("+id+")" {
+			if nospace(nf.arg(0)) == "fid("+id+")" {
 				okNew = true
 			}
 		}
@@ -234,7 +270,7 @@ func checkC10(r *Run) {
 		}
 		// every access to the pending table, wherever it is written (helpers included), holds
 		// pendingMu; the constructor fills the not yet published object
-		for _, fa := range db.Fields {
+		for _, fa := range m.fields() {
 			if fa.Key == "p9.Client.pending" && fa.Root.Key != "p9.NewClient" {
 				r.check(hasClass(fa.St.Locks, "p9.Client.pendingMu"), "r3", fa.Root.Key+": pending accessed under pendingMu", fa.Sel.Pos(), "under pendingMu", "c.pending is accessed without pendingMu in "+fa.Root.Key)
 			}
